@@ -258,18 +258,44 @@ def canon_hint_columns(ans, wit):
 
 
 def canon_wildcard_order(ans, wit):
-    """`this.*` / `t.*` / `!{..}` expanded by construct_tuple_from_module: entries with equal Decl.order come out in map order,
-    so the COLUMN ORDER of the relation varies: compare projections as sets"""
-    if not re.search(r"\.\*|!\{", wit.get("prql", "") + " ".join(c for _, c in wit.get("files", []))):
+    """the whole frame expanded by construct_tuple_from_module (`this.*`, `t.*`, `!{..}`, the frame handed to `group`): entries
+    with equal Decl.order - the namespace of input #n and the column at position n-1 - come out in map order, so the COLUMN ORDER
+    of the relation varies.  Needs a second input (a join).  Compare projections as sets."""
+    text = wit.get("prql", "") + " ".join(c for _, c in wit.get("files", []))
+    if "join" not in text:
         return ans
     if isinstance(ans, dict) and "sql" in ans:
-        return {**ans, "sql": re.sub(r"SELECT (.*?) FROM", lambda m: "SELECT " + ", ".join(sorted(m.group(1).split(", "))) + " FROM", ans["sql"])}
+        def sel(m):
+            items = m.group(1).split(", ")
+            stars = {i[:-1] for i in items if i.endswith(".*")}     # `t2.*` absorbs `t2.u2` when they are adjacent (translate_wildcards)
+            items = [i for i in items if not any(i.startswith(q) and i != q + "*" and re.fullmatch(r"[\w.\"`]+", i) for q in stars)]
+            if "*" in items:
+                items = [i for i in items if i == "*" or not re.fullmatch(r"[\w\"`]+", i)]
+            return "SELECT " + ", ".join(sorted(items)) + " FROM"
+        return {**ans, "sql": re.sub(r"SELECT (.*?) FROM", sel, ans["sql"])}
     if isinstance(ans, dict) and "rq" in ans:
-        def walk(v):
+        # a different column order inside a table also shifts the column ids handed out after it: compare the RQ modulo the
+        # numbering of column ids and the order of column lists
+        CID_KEYS = ("ColumnRef", "column", "id")
+        LIST_KEYS = ("columns", "Select", "partition", "compute")
+
+        def walk(v, under=None):
             if isinstance(v, dict):
-                return {k: (sorted((walk(x) for x in x_), key=J) if k in ("columns", "Select") and isinstance(x_, list) else walk(x_)) for k, x_ in v.items()}
+                if "Literal" in v:
+                    return v
+                out = {}
+                for k, x in v.items():
+                    if k in CID_KEYS and isinstance(x, int) and not ("relation" in v and "name" in v):
+                        out[k] = "#"
+                    elif k in LIST_KEYS and isinstance(x, list):
+                        out[k] = sorted((("#" if isinstance(e, int) else walk(e, k)) for e in x), key=J)
+                    else:
+                        out[k] = walk(x, k)
+                return out
             if isinstance(v, list):
-                return [walk(x) for x in v]
+                if under == "columns" and len(v) == 2 and isinstance(v[1], int):
+                    return [walk(v[0]), "#"]
+                return [walk(x, under) for x in v]
             return v
         return walk(ans)
     return ans
@@ -490,7 +516,7 @@ def run(ctx):
     # ---- 2. the corpus -------------------------------------------------------------------------------------------------
     import relgen
     progs = list(DIRECTED)
-    nrel = 400 if thorough else 120
+    nrel = 1500 if thorough else 300
     profiles = [dict(declared=True, shared_k=True, append_inline=False, open_take=True, dup_names=True),
                 dict(declared=False, shared_k=False, append_inline=True, open_take=False, dup_names=False),
                 dict(declared=True, shared_k=False, append_inline=True, open_take=False, dup_names=False)]
